@@ -729,6 +729,9 @@ fn case_fn(quick: bool) -> impl Fn(u64, &mut Rng, &mut Report) + Sync {
                                 let mut w = witness.clone();
                                 w["variant"] = json!(variant);
                                 w["got"] = json!(got.to_string().chars().take(1500).collect::<String>());
+                                if std::env::var("C14_DEBUG").is_ok() {
+                                    eprintln!("C14_DEBUG partition={} variant={variant}\nGOT {got}\nEXP {exp:?}", part.shape);
+                                }
                                 report_mismatches(&facts, rep, &c.out, prefix, part, got, &w);
                                 if pi == 0 {
                                     direct_ok = false;
@@ -821,7 +824,7 @@ fn case_fn(quick: bool) -> impl Fn(u64, &mut Rng, &mut Report) + Sync {
 
 fn main() {
     let ctx = Ctx::from_env("C14", "exploration");
-    let rep = run_cases(&ctx, "main", ctx.scale(120, 3400) as u64, case_fn(ctx.quick()));
+    let rep = run_cases(&ctx, "main", ctx.scale(900, 6000) as u64, case_fn(ctx.quick()));
     simple_finish(
         &ctx,
         rep,
@@ -836,7 +839,7 @@ fn main() {
          generated) x a filtering query (all / term / range). evaluations = (corpus, request, partition) triples, each \
          compared with a naive evaluator over the model documents. non-trivial = the result has >= 2 buckets or >= 2 \
          segments/indexes were merged; distinct = distinct (request kind+field tree, partition shape, query is-all) keys.",
-        ctx.scale(100, 5000),
+        ctx.scale(400, 5000),
         &[
             "terms aggregations are compared exactly only with segment_size >= cardinality; with a small segment_size only the documented bounds are asserted",
             "ties in _count / metric order are canonicalised: the sequence of sort values and the per-key contents are compared, not the order inside a tie",
